@@ -61,8 +61,10 @@ def run(ctx, chk):
     n_g = 0
     for fk in sorted(reach):
         f = ctx.ix.funcs[fk]
-        rets = [n for n in iter_own_nodes(f.node) if isinstance(n, ast.Return) and isinstance(n.value, ast.Subscript)]
-        ifs = [n for n in iter_own_nodes(f.node) if isinstance(n, ast.If)]
+        from ..core.ctx import inline_simple_helpers
+        fnode = inline_simple_helpers(ctx.ix, f)
+        rets = [n for n in iter_own_nodes(fnode) if isinstance(n, ast.Return) and isinstance(n.value, ast.Subscript)]
+        ifs = [n for n in iter_own_nodes(fnode) if isinstance(n, ast.If)]
         if len(rets) != 1 or not ifs:
             continue
         root = rets[0].value
@@ -635,9 +637,15 @@ def _callers_guard_membership(ctx, f, depth=0):
         for s in ctx.cg.sites[ck]:
             if f in s.callees:
                 guarded = False
+                from ..core.ctx import inline_simple_helpers
                 for test, pol in enclosing_tests(c.node, s.node):
+                    test = inline_simple_helpers(ctx.ix, c, root=test)        # `not self._is_cached(self._x_cache)` reads as the membership test it returns
                     for a, p in conjuncts(test, pol):
                         if isinstance(a, ast.Compare) and isinstance(a.ops[0], (ast.NotIn, ast.In)) and "_cache" in ast.unparse(a.comparators[0]):
+                            guarded = True
+                        # not (k1 in cache and k2 in cache[k1])  ==  k1 not in cache or k2 not in cache[k1]
+                        if not p and isinstance(a, ast.BoolOp) and isinstance(a.op, ast.And) and all(
+                                isinstance(v, ast.Compare) and isinstance(v.ops[0], ast.In) and "_cache" in ast.unparse(v.comparators[0]) for v in a.values):
                             guarded = True
                     if isinstance(test, ast.BoolOp) and any(isinstance(v, ast.Compare) and isinstance(v.ops[0], ast.NotIn) and "_cache" in ast.unparse(v.comparators[0]) for v in test.values):
                         guarded = True
